@@ -1056,6 +1056,38 @@ fn child_identity(c: &mut Ctx) {
             one(c, &content, &chunks, key);
             c.rep.distinct_case(format!("r{len}:{}", chunks.len()).as_bytes());
         }
+        // something already lies at the destination (a torn file an earlier crash left behind, a
+        // damaged blob the caller re-puts to repair it): the committed bytes still end up there
+        let rounds = if c.thorough { 120 } else { 24 };
+        for r in 0..rounds {
+            let len = *rng.pick(&[1usize, 17, 4096, 8193, 70_000]);
+            let content = rng.bytes(len);
+            let p = root.join("cas").join(rel_path_of(&b3(&content)));
+            let leftover: Vec<u8> = match r % 4 {
+                0 => Vec::new(),
+                1 => content[..len / 2].to_vec(),
+                2 => {
+                    let mut v = content.clone();
+                    v[len / 2] ^= 0x40;
+                    v
+                }
+                _ => {
+                    let mut v = content.clone();
+                    v.extend_from_slice(b"tail");
+                    v
+                }
+            };
+            let planted = std::fs::create_dir_all(p.parent().unwrap()).and_then(|_| std::fs::write(&p, &leftover));
+            if planted.is_err() {
+                c.rep.inconclusive.push(format!("could not plant a leftover at {}", p.display()));
+                continue;
+            }
+            key += 1;
+            let chunks = if r % 2 == 0 { vec![len] } else { vec![len / 3, len - len / 3] };
+            one(c, &content, &chunks, key);
+            c.rep.count("commits_over_a_leftover_file", 1);
+            c.rep.distinct_case(format!("left{len}:{}", r % 4).as_bytes());
+        }
         drop(cas);
         fsx::rm_rf(&root);
     } else {
